@@ -32,7 +32,21 @@ RULE = ("documents generated as text from a spec: 0-4 @string definitions (befor
         "the sibling, both, none or the name twice defined before / after / around the entry (default stack; thorough: resolve "
         "alone too). A bare value naming an @string is expected to resolve whatever its characters (pure digits included, as "
         "in C11_doc_fields'). "
-        "distinct = distinct (text, operation); "
+        "Stream `copy-placement` (after all the others): the default parse stack AND ITS PARTS IN COPY MODE x the PLACEMENT of the "
+        "definition. Documents: one name referenced bare by 2-4 entries (next to enclosed / concatenated / other-case / undefined "
+        "look-alikes and a second name placed at random), its @string definition before all uses / after all uses / before and "
+        "after (duplicated with another content, the first wins) / twice after / between two uses / never, with or without "
+        "failed or foreign blocks (unterminated entry, @string without `=`, entry with a duplicated key, entry with a duplicated "
+        "field name, comments, preamble) standing between the definition and the uses; a bounded grid (every placement x with / "
+        "without separators) and a random part, names from the plain pool or from the alphabet. EVERY document is parsed with "
+        "EVERY stack: parse_stack=default_parse_stack(allow_inplace_modification=False), default_parse_stack(True), "
+        "[Resolve(False), RemoveEnclosing(True)], [Resolve(False), RemoveEnclosing(False)], [Resolve(True), RemoveEnclosing(False)], "
+        "append_middleware=[NormalizeFieldKeys(True / False)], [a caller's identity BlockMiddleware in copy mode], [a caller's "
+        "LibraryMiddleware returning a deep copy] after the default stack (all judged by the default-parsing oracle and compared "
+        "with model operation 111), parse_stack=[Resolve(False)] and Resolve(False).transform(split library) (judged by the same "
+        "oracle without the enclosing removal: a resolved field holds the @string's source value, every other field its own, "
+        "resolved keys recorded, strings as split; compared with model operation 110). "
+        "distinct = distinct (text, operation[, stack]); "
         "non-trivial = some field value is a bare identifier or an enclosed look-alike of a defined key")
 TRUSTED = ["the splitter is not modelled in this engine: the model starts from the split library, the Python oracle checks "
            "the property on parse_string(text) with the default stack against the document spec"]
@@ -210,6 +224,108 @@ def sweep_docs(rng):
         yield doc
 
 
+# ---------------------------------------------------------------- copy mode x placement of the definition
+PLACEMENTS = ["before", "after", "both", "twice-after", "twice-before", "between", "never"]
+STACKS = [("dflt-copy", 111), ("dflt-inplace", 111), ("copy+remove-inplace", 111), ("copy+remove-copy", 111),
+          ("inplace+remove-copy", 111), ("append-normalize-inplace", 111), ("append-normalize-copy", 111),
+          ("append-user-block-copy", 111), ("append-user-library-copy", 111), ("resolve-copy", 110), ("resolve-copy-transform", 110)]
+STACK_OP = dict(STACKS)
+CONTENTS = ['"Value A"', "{Value {B}}", "1234", '"{q}"', "{ sp }", '"p" # "q"', "{}", '"0"']
+
+
+def look_alike(rng, k, k2):
+    kind = rng.choice(["braced", "quoted", "case", "concat", "number", "text", "undef", "other", "other"])
+    if kind == "braced":
+        return "{%s}" % k
+    if kind == "quoted":
+        return '"%s"' % k
+    if kind == "case":
+        return k.swapcase()
+    if kind == "concat":
+        return rng.choice(["%s # %s" % (k, k2), '%s # "lit"' % k, "{lit} # %s" % k, "%s # %s" % (k, k)])
+    if kind == "number":
+        return rng.choice(["1990", "12", "0"])
+    if kind == "text":
+        return rng.choice(["{Some {T}itle}", '"Q text"', "{{%s}}" % k, '"%s" # "%s"' % (k, k2)])
+    if kind == "undef":
+        return rng.choice(["undefinedkey", k + "x", "x" + k])
+    return k2
+
+
+def separator(rng, k, plain, ekeys, counter):
+    """a block that is no definition and no live use: failed blocks of every kind, comments, a preamble"""
+    kind = rng.choice(["unterminated", "string-no-eq", "dup-key", "dup-field", "dup-field", "foreign"])
+    if kind == "dup-key" and not ekeys:
+        kind = "unterminated"
+    if kind == "unterminated":
+        return {"t": "raw", "text": "@article{bad%d, title = %s" % (counter, k if plain else "abc")}
+    if kind == "string-no-eq":
+        return {"t": "raw", "text": rng.choice(["@string{%s}", "@string {%s}", "@STRING{%s }"]) % (k if plain else "abc")}
+    if kind == "dup-key":
+        return {"t": "entry", "type": "misc", "key": rng.choice(ekeys), "fields": [["note", k], ["title", "{%s}" % k]][:rng.choice([1, 2])]}
+    if kind == "dup-field":
+        n = rng.choice(FNAMES)
+        return {"t": "entry", "type": "misc", "key": "df%d" % counter, "fields": [[n, k], [n, rng.choice([k, "{x}", "12"])]]}
+    return {"t": "raw", "text": rng.choice(RAW_TEXTS)}
+
+
+def placement_doc(rng, place=None, sep=None):
+    """one name `k` referenced bare by several entries x where its @string stands x what stands between them"""
+    plain = rng.random() < 0.75
+    pool = list(SKEYS) if plain else c11_names.gen_pool(rng)
+    k = rng.choice(pool)
+    rest = [x for x in pool if x != k]
+    k2 = rng.choice(rest) if rest else k + "x"
+    place = place or rng.choice(PLACEMENTS)
+    sep = (rng.random() < 0.5) if sep is None else sep
+    nuse = rng.choice([2, 2, 3, 4])
+    uses = []
+    for i in range(nuse):
+        names = rng.sample(FNAMES, rng.choice([1, 2, 2, 3]))
+        fields = [[n, look_alike(rng, k, k2)] for n in names]
+        if i < 2 or rng.random() < 0.7:
+            fields[rng.randrange(len(fields))][1] = k                 # several entries refer to the same name
+        uses.append({"t": "entry", "type": rng.choice(["article", "Book"]), "key": "e%d" % i, "fields": fields})
+    c1, c2 = rng.sample(CONTENTS, 2)
+    d1, d2 = {"t": "string", "key": k, "src": c1}, {"t": "string", "key": k, "src": c2}
+    cut = rng.randint(1, nuse - 1)
+    layouts = {"before": ([d1], [], []), "after": ([], [], [d1]), "both": ([d1], [], [d2]), "twice-after": ([], [], [d1, d2]),
+               "twice-before": ([d1, d2], [], []), "between": ([], [d1], []), "never": ([], [], [])}
+    head, mid, tail = layouts[place]
+    groups = [head, uses[:cut], mid, uses[cut:], tail]
+    if sep:
+        # failed / foreign blocks on the boundaries between definitions and uses (for `never`: between the uses)
+        nsep = 0
+        out = []
+        for gi, g in enumerate(groups):
+            out.extend(g)
+            if gi < len(groups) - 1 and (g or gi == 1) and rng.random() < 0.8:
+                ekeys = [it["key"] for it in out if it["t"] == "entry" and it["key"].startswith("e")]
+                for _ in range(rng.choice([1, 1, 2])):
+                    out.append(separator(rng, k, plain, ekeys, nsep))
+                    nsep += 1
+        items = out
+    else:
+        items = [it for g in groups for it in g]
+    # the second name: defined nowhere, somewhere, or twice
+    for _ in range(rng.choice([0, 1, 1, 2])):
+        items.insert(rng.randint(0, len(items)), {"t": "string", "key": k2, "src": rng.choice(STRING_SRCS)})
+    doc = {"items": items, "style": rng.randint(0, 3), "cls": {"place": place, "sep": bool(sep), "uses": nuse}}
+    if not plain:
+        doc["alpha"] = {"pool": pool}
+    if rng.random() < 0.4:
+        add_layout(doc, rng)
+    return doc
+
+
+def placement_cases(rng, tier):
+    docs = [placement_doc(rng, place, sep) for place in PLACEMENTS for sep in (False, True)]
+    docs += [placement_doc(rng) for _ in range(110 if tier == "quick" else 2500)]
+    for doc in docs:
+        for stack, _ in STACKS:
+            yield {"stream": "copy-placement", "input": {"doc": doc, "op": 114, "stack": stack}}
+
+
 def two_calls(doc):
     """the documents of the two-call stream: (early @string definitions, everything else)"""
     early = [it for it in doc["items"] if it["t"] == "string" and it.get("early")]
@@ -269,6 +385,8 @@ def generate(rng, tier):
             cases.append({"stream": "alphabet-sweep", "input": {"doc": doc, "op": 111}})
             if tier != "quick":
                 cases.append({"stream": "alphabet-sweep", "input": {"doc": doc, "op": 110}})
+    # the default stack and its parts in copy mode x placement of the definition (appended: the streams above keep their inputs)
+    cases.extend(placement_cases(rng, tier))
     return cases
 
 
@@ -369,9 +487,11 @@ def alpha_tags(doc, prefix=""):
     return sorted(prefix + t for t in tags)
 
 
-def oracle_default(doc, lib, early=None):
+def oracle_default(doc, lib, early=None, unenclose=True):
     """the property on the library obtained by default parsing of `doc`; with `early`, on the library obtained by default
-    parsing of `early` (definitions only) followed by default parsing of `doc` into the same library"""
+    parsing of `early` (definitions only) followed by default parsing of `doc` into the same library; with unenclose=False,
+    on the library obtained by resolution alone (no enclosing removal: every value is its stripped source text)"""
+    content = globals()["content"] if unenclose else (lambda src: src.strip())
     items = (early["items"] if early else []) + doc["items"]
     n_early = len(early["items"]) if early else 0
     first = {}
@@ -446,6 +566,69 @@ def impl_two_calls(doc):
     return rec
 
 
+STACK_TEXT = {
+    "dflt-copy": "parse_stack=default_parse_stack(allow_inplace_modification=False)",
+    "dflt-inplace": "parse_stack=default_parse_stack(allow_inplace_modification=True)",
+    "copy+remove-inplace": "parse_stack=[ResolveStringReferencesMiddleware(False), RemoveEnclosingMiddleware(True)]",
+    "copy+remove-copy": "parse_stack=[ResolveStringReferencesMiddleware(False), RemoveEnclosingMiddleware(False)]",
+    "inplace+remove-copy": "parse_stack=[ResolveStringReferencesMiddleware(True), RemoveEnclosingMiddleware(False)]",
+    "append-normalize-inplace": "append_middleware=[NormalizeFieldKeys(True)]",
+    "append-normalize-copy": "append_middleware=[NormalizeFieldKeys(False)]",
+    "append-user-block-copy": "append_middleware=[<identity BlockMiddleware subclass>(allow_inplace_modification=False)]",
+    "append-user-library-copy": "append_middleware=[<LibraryMiddleware subclass returning deepcopy(library)>]",
+    "resolve-copy": "parse_stack=[ResolveStringReferencesMiddleware(False)]",
+    "resolve-copy-transform": "ResolveStringReferencesMiddleware(False).transform(parse_string(text, parse_stack=[]))",
+}
+_USER_MW = {}
+
+
+def user_middlewares():
+    """a caller's own middlewares, derived from the public base classes of the tree under test"""
+    if not _USER_MW:
+        from copy import deepcopy
+        from bibtexparser.middlewares import BlockMiddleware, LibraryMiddleware
+
+        class IdentityBlocks(BlockMiddleware):
+            pass
+
+        class CopyLibrary(LibraryMiddleware):
+            def transform(self, library):
+                return deepcopy(library)
+        _USER_MW["block"] = IdentityBlocks
+        _USER_MW["library"] = CopyLibrary
+    return _USER_MW
+
+
+def run_stack(stack, text, split):
+    """parse `text` the way the stack name says (public entry points only); `split` is a fresh split library of `text`"""
+    import bibtexparser
+    from bibtexparser.middlewares import ResolveStringReferencesMiddleware as Resolve, RemoveEnclosingMiddleware as Remove
+    from bibtexparser.middlewares import NormalizeFieldKeys, default_parse_stack
+    if stack == "dflt-copy":
+        return bibtexparser.parse_string(text, parse_stack=default_parse_stack(allow_inplace_modification=False))
+    if stack == "dflt-inplace":
+        return bibtexparser.parse_string(text, parse_stack=default_parse_stack(allow_inplace_modification=True))
+    if stack == "copy+remove-inplace":
+        return bibtexparser.parse_string(text, parse_stack=[Resolve(False), Remove(True)])
+    if stack == "copy+remove-copy":
+        return bibtexparser.parse_string(text, parse_stack=[Resolve(allow_inplace_modification=False), Remove(allow_inplace_modification=False)])
+    if stack == "inplace+remove-copy":
+        return bibtexparser.parse_string(text, parse_stack=[Resolve(True), Remove(False)])
+    if stack == "append-normalize-inplace":
+        return bibtexparser.parse_string(text, append_middleware=[NormalizeFieldKeys(True)])
+    if stack == "append-normalize-copy":
+        return bibtexparser.parse_string(text, append_middleware=[NormalizeFieldKeys(allow_inplace_modification=False)])
+    if stack == "append-user-block-copy":
+        return bibtexparser.parse_string(text, append_middleware=[user_middlewares()["block"](allow_inplace_modification=False)])
+    if stack == "append-user-library-copy":
+        return bibtexparser.parse_string(text, append_middleware=[user_middlewares()["library"](allow_inplace_modification=False)])
+    if stack == "resolve-copy":
+        return bibtexparser.parse_string(text, parse_stack=[Resolve(False)])
+    if stack == "resolve-copy-transform":
+        return Resolve(allow_inplace_modification=False).transform(split)
+    raise ValueError(stack)
+
+
 def impl(case):
     import enc
     import implutil
@@ -456,6 +639,9 @@ def impl(case):
     doc, op = inp["doc"], inp["op"]
     if op == 113:
         return impl_two_calls(doc)
+    stack = inp.get("stack")
+    if op == 114:
+        op = STACK_OP[stack]              # the model operation this stack must agree with
     text = render(doc)
     # the split library, as the block list it is built from (duplicate wrappers unwrapped)
     split0 = bibtexparser.parse_string(text, parse_stack=[])
@@ -465,9 +651,11 @@ def impl(case):
     split1 = bibtexparser.parse_string(text, parse_stack=[])
     assert [enc.enc_block(b, abstract_prev=True) for b in again.blocks] == [enc.enc_block(b, abstract_prev=True) for b in split1.blocks], \
         "Library(unwrapped blocks) differs from the split library"
-    rec = {"sx_in": [op, sx_blocks], "key": json.dumps([text, op])}
+    rec = {"sx_in": [op, sx_blocks], "key": json.dumps([text, op] + ([stack] if stack else []))}
 
     def run():
+        if stack:
+            return run_stack(stack, text, split1)
         if op == 110:
             return ResolveStringReferencesMiddleware().transform(split1)
         if op == 111:
@@ -485,7 +673,20 @@ def impl(case):
     lib = r[1]
     rec["sx_out"] = implutil.r_ok([enc.enc_block(b, abstract_prev=True) for b in lib.blocks])
     tags = []
-    if op == 111:
+    if stack:
+        ok, detail = oracle_default(doc, lib, unenclose=(op == 111))
+        if ok:
+            got = [(type(s).__name__, s.key, s.raw, s.start_line) for s in lib.strings]
+            want = [(type(s).__name__, s.key, s.raw, s.start_line) for s in split0.strings]
+            if got != want:
+                ok, detail = False, "the @string blocks after parsing are %r, as split they were %r" % (got, want)
+        rec["oracle"] = {"ok": ok, "detail": detail + ("" if ok else " in document %r parsed with %s" % (text, STACK_TEXT[stack]))}
+        cls = doc["cls"]
+        some = any("ResolveStringReferences" in e.parser_metadata for e in lib.entries)
+        tags += ["stack:" + stack, "place:" + cls["place"], "place:%s/%s" % (cls["place"], "separated" if cls["sep"] else "adjacent"),
+                 "place:%s/%s" % (cls["place"], "resolved-some" if some else "resolved-none"), "uses-of-the-name:%d" % cls["uses"]]
+        tags += alpha_tags(doc, "copy-placement:")
+    elif op == 111:
         ok, detail = oracle_default(doc, lib)
         if ok:
             # "the @string blocks themselves stay in the library unchanged": the same blocks, source text and place as split
